@@ -47,7 +47,7 @@ theorem obs_oneLease {c : Conf} {s : State} (h : Inv c s) : oneLeasePerClient (o
   show ((s.leases.map Lease.view).map (·.mac)).Nodup
   rw [view_mac]; exact h.macNodup
 
-theorem obs_dynInPool {c : Conf} {s : State} (hc : ConfOK c) (h : Inv c s) : dynInPool c (obsOf c s) = true := by
+theorem obs_dynInPool {c : Conf} {s : State} (hc : validate c = true) (h : Inv c s) : dynInPool c (obsOf c s) = true := by
   unfold dynInPool
   rw [List.all_eq_true]
   intro v hv
@@ -55,7 +55,7 @@ theorem obs_dynInPool {c : Conf} {s : State} (hc : ConfOK c) (h : Inv c s) : dyn
   cases hs : l.static
   · obtain ⟨h1, h2⟩ := h.dynPool l hl hs
     have hg : l.ip ≠ c.gw := by
-      intro e; exact hc.gwOut ⟨e ▸ h1, e ▸ h2⟩
+      intro e; exact (validate_spec hc).2.1 ⟨e ▸ h1, e ▸ h2⟩
     simp [Lease.view, hs, inPool, h1, h2, hg]
   · simp [Lease.view, hs]
 
@@ -215,7 +215,7 @@ theorem obs_reservedOK {O : Oracle} {c : Conf} {s : State} {op : Op} (h : Inv c 
     · have : ((step O c s op).2.rc != 1) = true := by simpa using hrc
       rw [this]; rfl
 
-theorem obs_offerLive {O : Oracle} {c : Conf} {s : State} {op : Op} (hc : ConfOK c) (h : Inv c s) :
+theorem obs_offerLive {O : Oracle} {c : Conf} {s : State} {op : Op} (hpos : 0 < c.start) (h : Inv c s) :
     offerLive c (obsOf c s) op (step O c s op).2 = true := by
   have h0 : Inv c { s with stale := [] } := Inv_congr h rfl rfl rfl rfl rfl rfl
   unfold offerLive
@@ -237,7 +237,7 @@ theorem obs_offerLive {O : Oracle} {c : Conf} {s : State} {op : Op} (hc : ConfOK
         rw [List.any_eq_true] at hfree
         obtain ⟨a, ha, hal⟩ := hfree
         obtain ⟨h1, h2⟩ := mem_poolAddrs.1 ha
-        refine ⟨a, h1, by have := hc.lt; omega, ?_⟩
+        refine ⟨a, h1, by omega, ?_⟩
         intro l hl hla
         rw [List.all_eq_true] at hal
         have := hal l.view (List.mem_map.2 ⟨l, hl, rfl⟩)
@@ -249,7 +249,7 @@ theorem obs_offerLive {O : Oracle} {c : Conf} {s : State} {op : Op} (hc : ConfOK
         unfold step
         simp only [hv, Bool.not_true, Bool.false_eq_true, if_false]
       rw [hstep, r1, r2]
-      have : (handleDiscover c m { s with stale := [] }).2.yi ≠ 0 := by have := hc.pos; omega
+      have : (handleDiscover c m { s with stale := [] }).2.yi ≠ 0 := by omega
       simp [this]
     · have : (validMAC m && (obsOf c s).leases.all (fun l => l.mac != m) && someFree c (obsOf c s)) = false := by
         simpa using hcond
@@ -264,12 +264,13 @@ theorem obs_offerLive {O : Oracle} {c : Conf} {s : State} {op : Op} (hc : ConfOK
   | restart => rfl
 
 /-- The model meets every clause about addresses and clients, on its own observations. -/
-theorem specCore_step {O : Oracle} {c : Conf} {s : State} {op : Op} (hc : ConfOK c) (h : Inv c s) :
+theorem specCore_step {O : Oracle} {c : Conf} {s : State} {op : Op} (hc : validate c = true) (hpos : 0 < c.start)
+    (h : Inv c s) :
     specCore c (obsOf c s) op (step O c s op).2 (obsOf c (step O c s op).1) = true := by
   have hi' := Inv_step (O := O) (op := op) h
   unfold specCore specCoreWhy
   rw [obs_noSharedIP hi', obs_oneLease hi', obs_dynInPool hc hi', obs_dynNotReserved hi', obs_reservedOK h,
-    obs_replyRecorded h, obs_offerLive hc h, obs_bitsAgree hi', obs_ipIndexAgree hi']
+    obs_replyRecorded h, obs_offerLive hpos h, obs_bitsAgree hi', obs_ipIndexAgree hi']
   rfl
 
 /-! ### the file and the hostname index, as observed -/
